@@ -46,7 +46,20 @@ racelog="$PWD/tmp/race.$prop.$$"
 rm -f "$racelog".*
 export GORACE="halt_on_error=0 log_path=$racelog"
 export VERIF_RACELOG="$racelog"
-"$bin" "$prop" -tier "$tier" -seed "${VERIF_SEED:-1}" "${extra[@]}"
-rc=$?
+runlog="$PWD/tmp/run.$prop.$$.log"
+"$bin" "$prop" -tier "$tier" -seed "${VERIF_SEED:-1}" "${extra[@]}" 2>&1 | tee "$runlog"
+rc=${PIPESTATUS[0]}
 rm -f "$racelog".*
+if [ "$rc" != 0 ] && [ "$rc" != 1 ] && grep -qE '^(fatal error:|panic:)' "$runlog"; then
+  # The monitor process itself died of a Go runtime fault (e.g. "concurrent map read and map write" between the
+  # engine and the caller's own map, a panic on an engine goroutine): the engine took the process down, which
+  # every property forbids.  The log is the witness.
+  mkdir -p "replays/$prop"
+  crash="$PWD/replays/$prop/process-crash-$$.log"
+  cp "$runlog" "$crash"
+  echo "VIOLATION property=$prop replay=$crash"
+  echo "  kind=process.crash: the monitor process was killed by a Go runtime fault while driving the engine: $(grep -m1 -E '^(fatal error:|panic:)' "$runlog")"
+  rc=1
+fi
+rm -f "$runlog"
 exit $rc
